@@ -59,7 +59,7 @@ Definition next (r : reader) : bool * reader :=
     if (ikind node =? IndentKind) && (r_vpos r1 <? iindent node) then
       (true, {| r_src := src; r_spans := r_spans r1; r_pos := pos; r_vpos := r_vpos r1 + 1; r_prev := pos |})
     else if negb (ikind node =? IndentKind) && (pos + 1 <? iend node) then
-      let v := if (at_ src pos =? 0) && (at_ src (pos + 1) =? 0) then (r_vpos r1 + 1) mod 3 else r_vpos r1 in
+      let v := if at_ src (pos + 1) =? 0 then (if at_ src pos =? 0 then (r_vpos r1 + 1) mod 3 else 0) else r_vpos r1 in
       (true, {| r_src := src; r_spans := r_spans r1; r_pos := pos + 1; r_vpos := v; r_prev := pos |})
     else
       match nextSpan (tl (r_spans r1)) with
